@@ -165,7 +165,55 @@ def kf_date_tz(f, k):
     return oracle_parse("date", m.group(1)) == f["observed"]
 
 
-CLASSIFIERS = {"c06_hour_24": kf_t24, "c06_date_tz_ignored": kf_date_tz}
+def kf_restricted(f, k):
+    """D46: a value of a named simple type derived by restriction from a builtin is passed through untranslated:
+    sent as str(value), received as the text."""
+    if (f.get("input") or {}).get("stream") != "restricted-simple-types":
+        return False
+    return f.get("untranslated") is True
+
+
+CLASSIFIERS = {"c06_hour_24": kf_t24, "c06_date_tz_ignored": kf_date_tz, "c06_restricted_simple_type": kf_restricted}
+
+
+def restricted_simple_types(ctx):
+    """Named simple types derived by restriction from a builtin carry the builtin's value space: a Python value is
+    sent in the builtin's lexical form and a reply text comes back as the builtin's Python type."""
+    import datetime
+    import decimal
+    cases = [("boolean", True, "true", True), ("boolean", False, "false", False), ("int", 5, "5", 5),
+             ("dateTime", datetime.datetime(2001, 2, 3, 4, 5, 6), "2001-02-03T04:05:06", datetime.datetime(2001, 2, 3, 4, 5, 6)),
+             ("date", datetime.date(2001, 2, 3), "2001-02-03", datetime.date(2001, 2, 3)),
+             ("time", datetime.time(4, 5, 6), "04:05:06", datetime.time(4, 5, 6)),
+             ("decimal", decimal.Decimal("1.50"), "1.50", decimal.Decimal("1.50")),
+             ("double", float("inf"), "INF", float("inf")), ("string", "s", "s", "s")]
+    decl = "".join('<xsd:simpleType name="R%d"><xsd:restriction base="xsd:%s"/></xsd:simpleType>' % (i, c[0])
+                   for i, c in enumerate(cases))
+    members = "".join('<xsd:element name="m%d" type="x:R%d" minOccurs="0"/>' % (i, i) for i in range(len(cases)))
+    schema = ('%s<xsd:element name="f"><xsd:complexType><xsd:sequence>%s</xsd:sequence></xsd:complexType></xsd:element>'
+              '<xsd:element name="fResponse"><xsd:complexType><xsd:sequence>%s</xsd:sequence></xsd:complexType>'
+              '</xsd:element>' % (decl, members, members))
+    w = wsdlkit.wsdl_doc(schema, "f", "fResponse")
+    req, rep = wsdlkit.client(w, nosend=True), wsdlkit.client(w)
+    for i, (base, value, lex, back) in enumerate(cases):
+        meta = {"stream": "restricted-simple-types", "base": base, "value": repr(value)}
+        ctx.case(common.canon(meta), True)
+        name = "m%d" % i
+        env = wsdlkit.envelope_bytes(req.service.f(**{name: value}))
+        node = xmlread.find1(xmlread.find1(xmlread.find1(xmlread.parse(env), "Body"), "f"), name)
+        sent = None if node is None else node["text"]
+        same = sent == lex
+        if base == "decimal" and sent is not None and re.match(r"^-?[0-9]+(\.[0-9]+)?$", sent):
+            same = decimal.Decimal(sent) == value        # any digits-only form of the same number
+        if not same:
+            ctx.fail("a value of a restricted simple type is not sent in the base type's lexical form", meta, sent, lex,
+                     untranslated=(sent == str(value)))
+        doc = ('<e:Envelope xmlns:e="%s"><e:Body><fResponse xmlns="%s"><%s>%s</%s></fResponse></e:Body></e:Envelope>'
+               % (xmlread.ENV11, wsdlkit.TNS, name, lex, name)).encode()
+        got = getattr(rep.service.f(__inject={"reply": doc}), name, None)
+        if type(got) is not type(back) or got != back:
+            ctx.fail("a reply text of a restricted simple type is not decoded to the base type's value", meta, repr(got),
+                     repr(back), untranslated=(isinstance(got, str) and str(got) == lex))
 
 
 # ---------------------------------------------------------------- generators
@@ -485,9 +533,20 @@ def run(ctx):
         v = wire.recv("ti", t)
         if v != dtv.timetz():
             ctx.fail("time wire round trip differs", {"value": t}, repr(v), repr(dtv.timetz()))
+    restricted_simple_types(ctx)
     ctx.sample({"parse": cases[5]})
     ctx.sample({"parse": cases[len(cases) // 2]})
     ctx.sample({"decimal": str(vals[0]) if vals else None})
+
+
+def restricted_untranslated():
+    """D46 witness: Flag = restriction of xsd:boolean; True is sent as 'True'."""
+    schema = ('<xsd:simpleType name="Flag"><xsd:restriction base="xsd:boolean"/></xsd:simpleType><xsd:element name="f">'
+              '<xsd:complexType><xsd:sequence><xsd:element name="a" type="x:Flag"/></xsd:sequence></xsd:complexType>'
+              '</xsd:element>')
+    c = wsdlkit.client(wsdlkit.wsdl_doc(schema, "f", None), nosend=True)
+    env = wsdlkit.envelope_bytes(c.service.f(True))
+    return xmlread.find1(xmlread.find1(xmlread.find1(xmlread.parse(env), "Body"), "f"), "a")["text"] != "true"
 
 
 def widen(ctx):
@@ -497,6 +556,8 @@ def widen(ctx):
 
 def witness(ctx, k):
     w = k["witness"]
+    if w.get("kind") == "restricted-simple-type":
+        return restricted_untranslated()
     if "kind" in w:
         exp = oracle_parse(w["kind"], w["s"])
         impl = impl_parse(w["kind"], w["s"])
